@@ -70,15 +70,17 @@ Definition dtlz1_ref (M : nat) (x : list R) : list R :=
   map (fun i => 1 / 2 * (1 + dtlz_g13 x M) * dtlz_lin M x i) (seq 0 M).
 
 (* DTLZ2:  f_1 = (1+g) cos(th_1) ... cos(th_{M-1}),  f_m = (1+g) cos(th_1) ... cos(th_{M-m}) sin(th_{M-m+1}),
-           f_M = (1+g) sin(th_1),   th_i = x_i pi/2      (DTLZ4: th_i = x_i^alpha pi/2, alpha = 100) *)
+           f_M = (1+g) sin(th_1),   th_i = x_i pi/2      (DTLZ4: th_i = x_i^alpha pi/2) *)
 Definition dtlz_sph (M : nat) (th : nat -> R) (i : nat) : R :=
   big_prod (fun j => cos (th j)) (M - 1 - i) * (if Nat.eqb i 0 then 1 else sin (th (M - 1 - i)%nat)).
 Definition dtlz2_ref (M : nat) (x : list R) : list R :=
   map (fun i => (1 + dtlz_g24 x M) * dtlz_sph M (fun j => X x j * PI / 2) i) (seq 0 M).
 Definition dtlz3_ref (M : nat) (x : list R) : list R :=
   map (fun i => (1 + dtlz_g13 x M) * dtlz_sph M (fun j => X x j * PI / 2) i) (seq 0 M).
-Definition dtlz4_ref (M : nat) (x : list R) : list R :=
-  map (fun i => (1 + dtlz_g24 x M) * dtlz_sph M (fun j => X x j ^ 100 * PI / 2) i) (seq 0 M).
+(* DTLZ4: th_i = x_i^alpha pi/2 for the constructor parameter alpha (default 100); x^alpha is the real power py_rpow
+   (Base/RList.v: 0^alpha = 0 for alpha > 0, x^alpha = exp(alpha ln x) for x > 0; equal to x^n for a natural number alpha = n) *)
+Definition dtlz4_ref (M : nat) (alpha : R) (x : list R) : list R :=
+  map (fun i => (1 + dtlz_g24 x M) * dtlz_sph M (fun j => py_rpow (X x j) alpha * PI / 2) i) (seq 0 M).
 
 (* DTLZ7:  f_i = x_i (i < M),  f_M = (1+g) h,  h = M - sum_{i<M} f_i/(1+g) (1 + sin(3 pi f_i)) *)
 Definition dtlz7_h (x : list R) (M : nat) : R :=
